@@ -97,8 +97,8 @@ def evalHeuristic (v : Variation) (perspective : Color) : Eval :=
   (evaluators.zip evaluatorWeights).foldl (fun acc (fw : (Variation → Color → Eval) × Rat) =>
     acc + Ev.mulF (fw.1 v perspective - fw.1 v perspective.opp) fw.2) 0
 
-/-- `king_has_move` shortcut.  Since the repair of F3 it is only consulted when the side to move is
-not in check. -/
+/-- `king_has_move` shortcut.  Since the repair of F3 its answer is only trusted when the side to
+move is not in check (`if !king_has_move || state.is_check()`). -/
 def kingHasMove (s : State) : Option Bool :=
   match firstOne (s.pieces.get s.turn .king) with
   | Option.none => Option.none        -- `first_square().unwrap()` panics without a king
@@ -110,7 +110,7 @@ def evaluate (s : State) (perspective : Color) (depth : Nat) : Option Eval :=
   | Option.none => Option.none
   | some khm =>
     let v := Variation.of s
-    if !khm then
+    if !khm || s.isCheck then
       match legalMoves? s with
       | Option.none => Option.none
       | some ms =>
